@@ -785,6 +785,7 @@ func main() {
 	parallel(rebindHistories(hx.Rand(), nre), evalRebind)
 	parallel(failedStartHistories(), evalFailedStart)
 	parallel(globalRefHistories(), evalGlobalRef)
+	parallel(hostRefHistories(), evalHostRef)
 
 	// 3. generated histories
 	n := 400
